@@ -6,6 +6,8 @@ import (
 	"fmt"
 	"go/types"
 	"strings"
+
+	"golang.org/x/tools/go/ssa"
 )
 
 var extCalls = map[string]func(e *Env, x *Expr) (Bound, error){}
@@ -140,5 +142,69 @@ func init() {
 			return Bound{}, fmt.Errorf("framemem of non-slice")
 		}
 		return frame(e, []string{e.vc.regMem(st.Elem())})
+	}
+}
+
+// ---- lastcall("Name"): the (first) result of the most recent call, on the current path, to a function or method
+// with that short name.  Only names mentioned in the root contract are tracked.
+
+func lastCallComp(name string) string { return "Own_last_" + sanitize(name) }
+
+func (f *Frame) noteLastCall(c *ssa.CallCommon, res []Val) {
+	if len(res) == 0 {
+		return
+	}
+	rc := f.rootContract()
+	if rc == nil || rc.Key == "" {
+		return
+	}
+	name := shortCallee(c)
+	if !contractMentionsLastCall(rc, name) {
+		return
+	}
+	comp := lastCallComp(name)
+	f.vc.regComp(comp, res[0].S)
+	f.vc.set(f.cur, comp, res[0].T)
+}
+
+func contractMentionsLastCall(rc *FuncContract, name string) bool {
+	needle := "lastcall(\"" + name + "\")"
+	for _, s := range rc.Sites {
+		if strings.Contains(s.Text, needle) {
+			return true
+		}
+	}
+	for _, cs := range [][]*Clause{rc.Ensures, rc.AtRelease} {
+		for _, c := range cs {
+			if strings.Contains(c.Text, needle) {
+				return true
+			}
+		}
+	}
+	return false
+}
+
+func init() {
+	extCalls["lastcall"] = func(e *Env, x *Expr) (Bound, error) {
+		if len(x.Args) != 1 || x.Args[0].Op != "str" {
+			return Bound{}, fmt.Errorf("lastcall(\"Name\")")
+		}
+		comp := lastCallComp(x.Args[0].Name)
+		ci, ok := e.vc.comps[comp]
+		if !ok {
+			return Bound{}, fmt.Errorf("no call to %s has been executed before this point", x.Args[0].Name)
+		}
+		var t types.Type
+		switch ci.sort {
+		case "Str":
+			t = types.Typ[types.String]
+		case "Bool":
+			t = types.Typ[types.Bool]
+		case "Int":
+			t = types.Typ[types.Int]
+		case "Iface":
+			t = types.Universe.Lookup("error").Type()
+		}
+		return Bound{V: Val{e.vc.get(e.state, comp), ci.sort}, T: t}, nil
 	}
 }
